@@ -773,7 +773,7 @@ Proof.
   destruct (pend_facts p Hp) as (m' & d' & rc & PF).
   destruct (link_member_entry m Hl) as (d0 & _ & He).
   assert (m' = m).
-  { apply (entry_unique ms m' m _ W (pf_in _ _ _ _ PF) Hm); [|exact He].
+  { apply (entry_unique ms m' m (name_levels (m_name m) ++ [name_base (m_name m)]) W (pf_in _ _ _ _ PF) Hm); [|exact He].
     pose proof (pf_dir _ _ _ _ PF) as D. rewrite A5 in D. injection D as EL.
     rewrite (pf_entry _ _ _ _ PF), <- EL, A2. reflexivity. }
   subst m'. pose proof (pf_kind _ _ _ _ PF) as Hk'. rewrite Hk in Hk'. inversion Hk'; subst d'.
